@@ -256,6 +256,7 @@ func TestCheck(t *testing.T) {
 	sd := gen.Zoo()
 	run.Rule("seeded partitions assign every zoo field (root fields and Node/Leaf/Item field funcs, values pure functions of object id) to 1-3 of 2-4 services, all objects federated with FetchObjectFromKeys; " +
 		"generated queries (duplicate aliases with different sub-selections, nested/named fragments, unions, args/variables, nulls, empty lists, multi-hop plans; every 7th operation is a mutation on a Mutation root whose fields live on one service each; one query in 50 runs over a world of 1200-2700 nodes so that single hops carry thousands of objects) run through federation.Executor (5 repetitions to vary the arbitrary service pick) while the gateway refreshes its schema every 2-5 ms and 8 goroutines query; " +
+		"names leg: 40/600 further structures of 2-4 federated entity types {id} with scalar / object-hop / list-hop field funcs over 2-3 services whose type, field, root-field, alias and service names come from a seeded generator of valid GraphQL names (underscores anywhere, digits, mixed case, names that extend / cut / case-swap each other or a service name; service names lower-case without underscore, the domain schemabuilder.NewSchemaWithName defines), 10/16 queries each (aliases, type conditions, __typename), each structure also built with plain control names: the control gateway must come up (else VERIF-BROKEN), then the named gateway must come up and answer like the combined server built with the same names; " +
 		"oracle: StripKey(gateway result) == StripKey(monolith result); every sub-query received by a service names only fields/args in that service's own schema; race detector. Non-trivial = plan needs >= 2 services; distinct by (partition, query shape).")
 	run.Assume("DirectExecutorClient (in-process protobuf round trip) stands for the gRPC transport")
 	mono, err := gen.Build(sd, gen.Config{Mutations: true}, &gen.Env{}).Build()
@@ -302,6 +303,18 @@ func TestCheck(t *testing.T) {
 		run.Count("fields_with_several_owners", p.multi)
 	})
 	run.Set("service_calls_including_schema_refreshes", refreshes)
+
+	// names leg (names_test.go): generated type / field / service names
+	nNames, nNQ := run.N(40, 600), run.N(10, 16)
+	if only, replay := run.Only(); replay {
+		if only >= namesBase {
+			namesCase(run, (only-namesBase)/1000, nNQ)
+		}
+		return
+	}
+	t0 := time.Now()
+	run.Each(nNames, 2, func(ni int) { namesCase(run, ni, nNQ) })
+	fmt.Printf("names leg: %d structures x %d queries took %v (this shard)\n", nNames, nNQ, time.Since(t0).Round(time.Millisecond))
 }
 
 func oneQuery(run *vlib.Run, sd *gen.SchemaDesc, mono *graphql.Schema, p *partition, pi, qi int) {
